@@ -55,3 +55,26 @@ REG.contract(
     note="split of a full leaf: two minimal leaves and the median; concatenated they are the old elements in order; the new "
          "right node belongs to the same creator",
 )
+
+# occupancy predicates (verify_only: callers keep inlining them, so no other ledger entry changes)
+REG.contract(
+    "dns.btree._Node.is_maximal",
+    verify_only=True, elements_are_keys=True, no_native=True,
+    params={"self": LEAF},
+    requires=["self.t >= 3"],
+    raises=[("builtins.AssertionError", f"len({_E}) > 2 * self.t - 1")],
+    ensures=[f"result == (len({_E}) == 2 * self.t - 1)"],
+    props=["C19"],
+    note="is_maximal: True exactly at 2t-1 elements (the occupancy at which insertion must split first); an over-full node trips the assertion",
+)
+
+REG.contract(
+    "dns.btree._Node.is_minimal",
+    verify_only=True, elements_are_keys=True, no_native=True,
+    params={"self": LEAF},
+    requires=["self.t >= 3"],
+    raises=[("builtins.AssertionError", f"len({_E}) < self.t - 1")],
+    ensures=[f"result == (len({_E}) == self.t - 1)"],
+    props=["C19"],
+    note="is_minimal: True exactly at t-1 elements (the occupancy below which deletion must steal or merge first)",
+)
